@@ -7,7 +7,8 @@
    [read_row fixed es row] the trace read path (OutputQuery) on a stored row.
    Accepted spans have 16-byte trace ids and 8-byte span ids (onSpan rejects every other width): part of [row_of]. *)
 From Coq Require Import List ZArith NArith Bool String Permutation.
-From Qryn Require Import model.Spans model.SpansChunk proofs.SpansProofs proofs.SpansChunkProofs proofs.SpansTimeProofs.
+From Qryn Require Import model.Spans model.SpansChunk model.SpansWire model.SpansStore proofs.SpansProofs proofs.SpansChunkProofs proofs.SpansTimeProofs
+  proofs.SpansWireProofs proofs.SpansStoreProofs.
 Import ListNotations.
 Open Scope Z_scope.
 
@@ -155,3 +156,20 @@ Theorem accepted_denotes : forall nd es rows,
   decode fixed (InZipkin nd es) = Some rows -> forallb z_wellformed es = true -> pushed_of (InZipkin nd es) <> None.
 Proof. exact accepted_denotes_l. Qed.
 Print Assumptions accepted_denotes.
+
+(* ---- the stored OTLP payload as bytes.  [enc_span] = the protobuf wire encoding proto.Marshal emits for the payload span
+   (compared byte for byte, by length and fingerprints, with every payload the implementation stores), [dec_span] = the read
+   path's proto.Unmarshal on the modelled fields.  decode (encode span) = span for EVERY span of the domain span_wire_ok (times
+   uint64, kind a non-negative int32, integers int64, doubles multiples of 1/8 below 2^53, no missing value directly inside a
+   list): no bound on sizes, nesting or the number of attributes. *)
+Theorem payload_decode_encode : forall s, span_wire_ok s = true -> dec_span (enc_span s) = Some s.
+Proof. exact dec_enc_span. Qed.
+Print Assumptions payload_decode_encode.
+
+(* read_back with the payload column holding BYTES: the read path decodes the stored bytes of every pushed OTLP span and returns
+   the pushed span (ids, parent, name, start, end, attributes).  [wire_domain rows]: the payload spans lie in span_wire_ok. *)
+Theorem read_back_bytes : forall inp rows ps,
+  decode fixed inp = Some rows -> pushed_of inp = Some ps -> in_range inp -> wire_domain rows ->
+  Forall2 (fun p sr => reads_back p (read_row_wire fixed (in_elems inp) (fst sr) (payload_bytes (t_payload (fst sr))))) ps rows.
+Proof. exact read_back_wire_l. Qed.
+Print Assumptions read_back_bytes.
